@@ -9,6 +9,7 @@ Definition dispatch (cmd : string) (arg : sexp) : sexp :=
   else if String.eqb cmd "cpp.print" then IR.run_print arg
   else if String.eqb cmd "cpp.run" then Exec.run_run arg
   else if String.eqb cmd "c09.translate" then KindModel.run_translate arg
+  else if String.eqb cmd "c09.prepass" then KindModel.run_prepass arg
   else if String.eqb cmd "c13.translate" then Arith.run_translate arg
   else if String.eqb cmd "c13.ifexp" then Arith.run_ifexp arg
   else if String.eqb cmd "c13.aggregate" then Arith.run_aggregate arg
